@@ -318,7 +318,15 @@ func (c *c16SL) Sx() string {
 	for i, b := range c.Bounds {
 		betw = append(betw, sxL(sxB(b[0]), sxB(b[1]), sxOpt(sxKVs(c.Betw[i]), !c.BetwErr[i])))
 	}
-	return sxL("n0", sxList(ins), sxI(c.Size), sxKVs(c.All), sxList(gets), sxList(froms), sxList(betw))
+	var late []string
+	for i, kv := range c.Late {
+		if i >= len(c.LateObs) {
+			break
+		}
+		o := c.LateObs[i]
+		late = append(late, sxL(sxB(kv.K), sxB(kv.V), sxB(c.LateQ[i]), sxKVs(o.Before), sxKVs(o.After), sxBool(o.Has), sxI(o.Size)))
+	}
+	return sxL("n0", sxList(ins), sxI(c.Size), sxKVs(c.All), sxList(gets), sxList(froms), sxList(betw), sxList(late))
 }
 
 func (c *c16SL) Nontrivial() bool { return len(c.Ins) >= 3 && len(c.Probes) >= 2 && len(c.Bounds) >= 1 }
